@@ -298,17 +298,17 @@ def modelledPanicSites : List String := [
 
 /-- the regenerated inventory (every index / slice / unchecked assertion / explicit panic call, by file, function
     and kind) contains no site without a model counterpart -/
-theorem C06_panic_site_inventory : ∀ s ∈ Gen.panicSites, s ∈ modelledPanicSites := by decide
+theorem C06_panic_site_inventory : ∀ s ∈ Gen.c06PanicSites, s ∈ modelledPanicSites := by decide
 
 /-! ### non-vacuity -/
 
 def ex_announce : B := Security.announceRequest
-def ex_upgrade : B := upgradeRequest Gen.protocolVersion false
+def ex_upgrade : B := upgradeRequest Gen.c06ProtocolVersion false
 
 /-- a well-formed pair of requests, delivered byte by byte, is admitted with the supported version and the
     trailing payload is handed on -/
 example : (serverRun ⟨false, .nil⟩ (fun _ => false) ((ex_announce ++ ex_upgrade ++ [1, 2, 3]).map fun b => [b])).out
-    = .established Gen.protocolVersion .none false [1, 2, 3] := by decide +kernel
+    = .established Gen.c06ProtocolVersion .none false [1, 2, 3] := by decide +kernel
 /-- a refusal exists (wrong method → 405), so `C06_else_refused`'s middle branch is inhabited -/
 example : (serverRun ⟨false, .nil⟩ (fun _ => false) [[71, 69, 84, 32, 47, 32, 72, 13, 10, 13, 10]]).out = .refused 405 := by
   decide
